@@ -338,6 +338,10 @@ class MinGenSet():
                     "solve_time": time.perf_counter() - start_time,
                     "status": self.solver.get_model_status(),
                 }
+                # Only a proven-infeasible k may be skipped: any other status (time limit,
+                # interrupt, unknown, ...) is inconclusive and must not yield a larger answer.
+                if self.solver.get_model_status() != sw.SolverWrapper.infeasible_status:
+                    return False
         return False
 
     def is_solved(self):
